@@ -910,6 +910,11 @@ class PeriodicCallback:
         self.jitter = jitter
         self._running = False
         self._timeout: object = None
+        # stop() increments _generation so that a _run() scheduled before it
+        # does nothing; while a callback is in progress (_in_flight), its
+        # _run() is the one that schedules the next call, even after start().
+        self._generation = 0
+        self._in_flight = False
 
     def start(self) -> None:
         """Starts the timer."""
@@ -919,11 +924,13 @@ class PeriodicCallback:
         self.io_loop = IOLoop.current()
         self._running = True
         self._next_timeout = self.io_loop.time()
-        self._schedule_next()
+        if not self._in_flight:
+            self._schedule_next()
 
     def stop(self) -> None:
         """Stops the timer."""
         self._running = False
+        self._generation += 1
         if self._timeout is not None:
             self.io_loop.remove_timeout(self._timeout)
             self._timeout = None
@@ -935,9 +942,10 @@ class PeriodicCallback:
         """
         return self._running
 
-    async def _run(self) -> None:
-        if not self._running:
+    async def _run(self, generation: int) -> None:
+        if not self._running or generation != self._generation:
             return
+        self._in_flight = True
         try:
             val = self.callback()
             if val is not None and isawaitable(val):
@@ -945,12 +953,15 @@ class PeriodicCallback:
         except Exception:
             app_log.error("Exception in callback %r", self.callback, exc_info=True)
         finally:
+            self._in_flight = False
             self._schedule_next()
 
     def _schedule_next(self) -> None:
         if self._running:
             self._update_next(self.io_loop.time())
-            self._timeout = self.io_loop.add_timeout(self._next_timeout, self._run)
+            self._timeout = self.io_loop.add_timeout(
+                self._next_timeout, self._run, self._generation
+            )
 
     def _update_next(self, current_time: float) -> None:
         callback_time_sec = self.callback_time / 1000.0
